@@ -132,6 +132,7 @@ type srvOpts struct {
 }
 
 type srvScen struct {
+	swarm  int // C11: number of distinct announcers of one infohash (0: a handful)
 	r      *Run
 	o      srvOpts
 	conn   *fakeConn
@@ -880,7 +881,7 @@ func (sc *srvScen) oracleOut(src *net.UDPAddr, q *qspec, kind string, obs obsOut
 		sc.viol("C08", "more than one datagram sent for one inbound datagram")
 	}
 	isQuery := kind == "m" && q != nil && q.y == "q"
-	if !isQuery && len(mine) > 0 {
+	if !isQuery && kind != "ud" && len(mine) > 0 {
 		sc.viol("C08", "datagram sent in reaction to a non-query message")
 	}
 	if sc.isBlocked(src.IP) && len(mine) > 0 {
